@@ -84,7 +84,7 @@ Record rcase := RCase {
 Definition observe_chain (names : list string) (a : authorizer) : list N :=
   map (fun m => dcode (chain_decide a deny_all m)) (methods names).
 
-Definition dummy_token : wtoken := WToken [] [] [] [].
+Definition dummy_token : wtoken := WToken [] [] [] [] [].
 
 Fixpoint run_steps (names : list string) (w : world) (toks : list wtoken) (c : caches) (ss : list rstep) : bool :=
   match ss with
